@@ -1,8 +1,21 @@
 """C05 -- node-version sets from reads detect every later insert into the read range"""
 import re
 
+import json
+
 from . import common as C
+from . import conc
 from . import seq
+
+# a read (scan or missed get) racing with the insert it has to detect: the recorded version must be the validated one
+RACES = ["getmiss-vs-insert", "getmiss-vs-insert-full", "getmiss-vs-insert-layer", "emptied-scan-vs-insert",
+         "emptied-getmiss-vs-insert", "emptied-scan-then-insert", "links-only-scan-vs-insert", "links-only-range-vs-insert",
+         "links-only-limited-vs-insert-before", "links-only-limited2-vs-insert-before", "scan-vs-split-4a"]
+
+
+def conc_part(res):
+    conc.conc_phase(res, "c05", ("seen_or_stale", "scan", "null", "deadlock"), RACES, (), True, 1600, ("preempt1",), 1,
+                    gen=conc.catalogue_gen, label="read_vs_insert_races")
 
 CATS = ["res", "nv"]
 GEN = dict(scans=True, dumps=False, phantoms=True, inline_frac=0.0)
@@ -26,9 +39,14 @@ def phantom_check(r):
 
 def run(tier, seed):
     res = C.Result("C05", tier, seed, level="proof")
-    res.assumptions = ["single-threaded; the staleness test uses node_version64::get_stable_version on the recorded pointers"]
-    return seq.run_seq_property(res, "c05", CATS, 40, 400, gen_kwargs=GEN, use_oracle=False, extra_check=phantom_check)
+    res.assumptions = ["sequential form proved (PhantomProofs) and tied differentially; reads racing with the insert are explored "
+                       "under the scheduler; the staleness test uses node_version64::get_stable_version on the recorded pointers"]
+    return seq.run_seq_property(res, "c05", CATS, 40, 400, gen_kwargs=GEN, use_oracle=False, extra_check=phantom_check, post=conc_part)
 
 
 def replay(path, tier, seed):
+    r = json.load(open(path))
+    if str(r.get("kind", "")).startswith("conc-"):
+        print(json.dumps(r, indent=1)[:3000])
+        return 1
     return seq.replay_seq("C05", "c05", path, CATS, extra_check=phantom_check)
